@@ -36,4 +36,24 @@ PROPS = {
                         "the session engine calls the modelled handlers one at a time (they take &mut self)"],
         "partial": [],
     },
+    "C08": {
+        "subs": [
+            {"name": "c08", "n_quick": 4000, "n_thorough": 200000, "model": "coq/Link/SenderCredit.v",
+             "rule": "random histories of link flows (delivery-count truthful / unset / bogus, credit 0..200, 2^32-1 or unset, drain, echo) "
+                     "and send attempts; initial delivery-count over-weighted within 100 of 0 and 2^32"},
+            {"name": "c08w", "n_quick": 4, "n_thorough": 60, "oracle": False,
+             "rule": "multi-threaded stress (4 workers) of the real consumer/producer pair: one consume(1) racing one grant per iteration "
+                     "for n seconds; a lost wake-up is a consume still pending 1 s after the grant with credit >= 1"},
+        ],
+        "rule": "c08: a case is one flow/send history run through the real LinkFlowState (facade) and the extracted Coq model; "
+                "non-trivial = at least one send went out and one had to wait; c08w counts its iterations in input_distribution",
+        "trusted": ["model scope: LinkFlowState<SenderMarker>::on_incoming_flow, consume_link_credit, as_link_flow; "
+                    "the wake-up theorem is about coq/Async/WakeUp.v where tokio::sync::Notify is modelled by its notify_waiters "
+                    "generation counter (a Notified completes once the counter differs from its creation snapshot) - validated by the "
+                    "stress run, not proved about tokio",
+                    "Tie_WakeOrder: the check-vs-register statement order is re-extracted from link/state.rs and util/producer.rs every run"],
+        "assumptions": ["link-credit in a flow < 2^32", "each model step of the wake-up protocol is atomic (credit under a lock, counter atomic)"],
+        "partial": ["C08_wakeup is a safety statement (no reachable stuck state with credit) over all interleavings of the modelled steps; "
+                    "the real multi-threaded scheduler is exercised only by the stress run"],
+    },
 }
